@@ -153,6 +153,25 @@ def int_min(aff, box, implicit_nonneg=('len(',)):
     for v, c in aff.coeffs.items():
         e = box.get(v, [None, False, None, False, set()])
         lo, los, hi, his, excl = e
+        if v.startswith('trunc:'):
+            # the integer part of a real variable: bounds follow from those of the variable (int() rounds towards zero)
+            rlo, rlos, rhi, rhis, _x = box.get(v[6:], [None, False, None, False, set()])
+            lo = los = hi = his = None
+            excl = set()
+            if rlo is not None:
+                if rlo >= 0:
+                    lo = Fraction(math.floor(rlo))
+                else:
+                    cl = math.ceil(rlo)
+                    lo = Fraction(cl + 1 if (rlos and rlo == cl) else cl)
+                los = False
+            if rhi is not None:
+                if rhi <= 0:
+                    hi = Fraction(math.ceil(rhi))
+                else:
+                    fl = math.floor(rhi)
+                    hi = Fraction(fl - 1 if (rhis and rhi == fl) else fl)
+                his = False
         if lo is None and any(v.startswith(p) for p in implicit_nonneg):
             lo, los = Fraction(0), False
         if c > 0:
